@@ -4,9 +4,9 @@
 Require Extraction.
 Require Import ExtrOcamlBasic.
 From FI Require Import Base.
-From FI Require Event Mutex MutexSpec Semaphore SemaphoreSpec Mpmc MpmcSpec MpmcStream Oneshot OneshotSpec StateBcast StateBcastSpec Timer TimerSpec RingBuf DList PHeapPtr.
+From FI Require Event EventSpec Mutex MutexSpec Semaphore SemaphoreSpec Mpmc MpmcSpec MpmcStream Oneshot OneshotSpec StateBcast StateBcastSpec Timer TimerSpec RingBuf DList PHeapPtr.
 Extraction Language OCaml.
 Separate Extraction
   Base.m_run Base.mkMachine
   BinNat.N.div_eucl BinNat.N.mul BinNat.N.add BinNat.N.of_nat BinNat.N.to_nat
-  Event.machine MutexSpec.machine SemaphoreSpec.machine MpmcStream.machine OneshotSpec.machine StateBcastSpec.machine TimerSpec.machine RingBuf.machine DList.machine PHeapPtr.machine.
+  EventSpec.machine MutexSpec.machine SemaphoreSpec.machine MpmcStream.machine OneshotSpec.machine StateBcastSpec.machine TimerSpec.machine RingBuf.machine DList.machine PHeapPtr.machine.
